@@ -113,18 +113,19 @@ Fixpoint subst_checks (fuel : nat) (cfg : config) (params : str) (rest : str) : 
   end.
 
 (* number of blocked rfbWriteExact calls before httpd stops writing, the peer being dead from the first
-   of them on.  [stop_at_first] = with notes/fix_C20_3.diff (nothing more is written after a failure) *)
+   of them on.  [stop_at_first] = true: the tree since 394d4bb (httpWrite: nothing more is written after a failure); false: the
+   flow before it (regression variant) *)
 Fixpoint blocked_writes (stop_at_first : bool) (checks : list bool) : nat :=
   match checks with
   | [] => O
   | c :: r => if stop_at_first || c then 1%nat else S (blocked_writes stop_at_first r)
   end.
 
-(* with the fix: one give-up per request, whatever the file looks like *)
+(* the tree: one give-up per request, whatever the file looks like *)
 Theorem vnc_stall_fixed : forall checks, (blocked_writes true checks <= 1)%nat.
 Proof. destruct checks; simpl; lia. Qed.
 
-(* the tree: text, "$HEIGHT", text, "$WIDTH", rest - a dead client is waited for five times (four unchecked writes and the checked last one) *)
+(* before 394d4bb: text, "$HEIGHT", text, "$WIDTH", rest - a dead client is waited for five times (four unchecked writes and the checked last one) *)
 Lemma vnc_stall_w :
   blocked_writes false (subst_checks 100 (cfg_w false) [] [120; 36; 72; 69; 73; 71; 72; 84; 120; 36; 87; 73; 68; 84; 72; 120]) = 5%nat.
 Proof. vm_compute. reflexivity. Qed.
